@@ -14,6 +14,7 @@
 #include <stdint.h>
 #include <string.h>
 #include <setjmp.h>
+#include <signal.h>
 #include <vector>
 #include <string>
 
@@ -27,6 +28,7 @@ static size_t g_pos = 0;
 static int g_mode = 0; /* 1 replay, 2 sweep */
 static uint64_t g_rng;
 static jmp_buf g_jmp;
+static sigjmp_buf g_sjmp;
 static uint64_t g_hash;
 static int g_fail;
 static std::string g_firstfail;
@@ -204,6 +206,12 @@ int main(int argc, char **argv) {
         return g_fail ? 1 : 0;
     }
     g_mode = 2;
+    /* a null-object call (truncated text section) kills the real process with SIGSEGV: in sweep mode that is a terminated path */
+    struct sigaction sa;
+    memset(&sa, 0, sizeof sa);
+    sa.sa_handler = [](int) { siglongjmp(g_sjmp, 1); };
+    sa.sa_flags = SA_NODEFER;
+    sigaction(SIGSEGV, &sa, 0);
     long n = sw ? atol(sw) : 100;
     long ok = 0;
     for (long s = 0; s < n; s++) {
@@ -214,6 +222,7 @@ int main(int argc, char **argv) {
         g_observes = 0;
         g_firstfail.clear();
         int j = setjmp(g_jmp);
+        if (j == 0) j = sigsetjmp(g_sjmp, 1);
         if (j == 0) {
             SYMX_ENTRY();
             printf("seed %ld done obs=%d fails=%d hash=%016llx %s\n", s, g_observes, g_fail,
